@@ -56,7 +56,13 @@ fn check_replica_graph(sc: &Scenario, hist: &[Op], w: &World, r: usize, cx: &mut
             return;
         };
         cx.count("readback_checks");
-        let d = match m.get_delta(&melda::melda::DeltaId::from(id).unwrap()) {
+        // the identifier the replica reports parses back to itself
+        let parsed = melda::melda::DeltaId::from(id);
+        if !parsed.as_ref().is_ok_and(|p| p.to_string() == *id) {
+            cx.violation("C13", "C13:block-identifier-does-not-parse-back", sc, hist, json!({"replica": r, "block": id, "parsed": parsed.map(|p| p.to_string()).map_err(|e| e.to_string())}));
+            return;
+        }
+        let d = match m.get_delta(&parsed.unwrap()) {
             Ok(Some(d)) => d,
             _ => {
                 cx.violation("C13", "C13:get_delta-failed", sc, hist, json!({"replica": r, "block": id}));
